@@ -44,12 +44,25 @@ def make_command(frame, sendtwice=False, response=None, devicetype=0):
                                             "devicetype": devicetype,
                                             "from_frame": classmethod(lambda c, f, **k: None)})
     # the metaclass registered the class: take it out again so that decoding is not affected
-    for lst in C.Command._framesizes.values():
-        if cls in lst:
-            lst.remove(cls)
-    if cls in C.Command._commands:
-        C.Command._commands.remove(cls)
+    _unregister(cls)
     return cls(frame)
+
+
+def _unregister(cls):
+    """Take a harness-defined command class out of whatever class-level lists / tables of Command (and its
+    bases' metaclass bookkeeping) it was entered in - by content, not by attribute name."""
+    def scrub(v):
+        if isinstance(v, list):
+            while cls in v:
+                v.remove(cls)
+        elif isinstance(v, dict):
+            for k in [k for k, x in dict.items(v) if x is cls]:
+                dict.pop(v, k)
+            for x in dict.values(v):
+                scrub(x)
+    for owner in C.Command.__mro__:
+        for v in list(vars(owner).values()):
+            scrub(v)
 
 
 # ---------------------------------------------------------------------------------------------
